@@ -10,16 +10,16 @@ import kani_run  # noqa: E402
 ROOT = kani_run.VERIF_ROOT
 
 
-def prebuild(crate, no_default=False, features=None):
+def prebuild(crate, no_default, features, tag, files, host, contracts):
+    """codegen-only build of one harness group so that the dependency artefacts of its target dir exist"""
     t0 = time.time()
-    base, ws, lock = kani_run.prepare_workspace("setup-" + crate)
+    base, ws, lock = kani_run.prepare_workspace("setup-" + crate + tag)
     try:
-        d = os.path.join(ROOT, "kani", crate)
-        files = [os.path.join(d, f) for f in sorted(os.listdir(d)) if f.endswith(".rs")] if os.path.isdir(d) else []
-        if not files:
-            return
-        kani_run.inject(ws, crate, files)
-        target = os.path.join(kani_run.CACHE, crate + ("-nd" if no_default else "") + ("-" + "-".join(features) if features else ""))
+        kani_run.inject(ws, crate, files, host=host)
+        if contracts:
+            kani_run.inject_contracts(ws, crate)
+        target = os.path.join(kani_run.CACHE, crate + ("-nd" if no_default else "") +
+                              ("-" + "-".join(features) if features else "") + tag)
         cmd = ["cargo", "kani", "-p", crate, "--target-dir", target, "-Z", "function-contracts", "-Z", "stubbing",
                "-Z", "unstable-options", "--only-codegen"]
         if no_default:
@@ -29,7 +29,7 @@ def prebuild(crate, no_default=False, features=None):
         env = dict(os.environ, CARGO_NET_OFFLINE="true")
         env.pop("RUSTUP_TOOLCHAIN", None)
         p = subprocess.run(cmd, cwd=ws, env=env, capture_output=True, text=True, timeout=3000)
-        print("setup: kani prebuild %s: exit %d in %.0fs" % (crate, p.returncode, time.time() - t0))
+        print("setup: kani prebuild %s%s: exit %d in %.0fs" % (crate, tag, p.returncode, time.time() - t0))
         if p.returncode:
             print(p.stderr[-1500:])
     finally:
@@ -54,7 +54,11 @@ if __name__ == "__main__":
     seen = set()
     for spec in registry.CHECKS.values():
         for g in spec.get("kani", []):
-            key = (g["crate"], g.get("no_default_features", False), tuple(g.get("features") or ()))
-            if key not in seen:
-                seen.add(key)
-                prebuild(key[0], key[1], list(key[2]) or None)
+            if g.get("role") == "witness":
+                continue   # witness groups build on first use (thorough tier / fallback)
+            key = (g["crate"], g.get("no_default_features", False), tuple(g.get("features") or ()), g.get("tag", ""))
+            if key in seen:
+                continue
+            seen.add(key)
+            files = [os.path.join(ROOT, "kani", g["crate"], f) for f in g["files"]]
+            prebuild(key[0], key[1], list(key[2]) or None, key[3], files, g.get("host"), g.get("contracts", True))
